@@ -106,3 +106,146 @@ Proof.
   apply (connectedb_spec _ _ Hin) in E.
   pose proof (connected_edges_lb (seq 0 n) T (seq_NoDup _ _) Hin E) as Hlb. rewrite seq_length in Hlb. lia.
 Qed.
+
+(* ================================================================== (b) the recursion's general branch *)
+Local Open Scope Z_scope.
+
+Lemma brute_above n i : (length (all_edges n) < i)%nat -> brute n i = 0.
+Proof. intros H. unfold brute. rewrite combs_too_many by exact H. reflexivity. Qed.
+
+(* the counting identity solved for the class "the component is everything" *)
+Lemma brute_recurrence N k :
+  brute (S N) k =
+  Cn (length (all_edges (S N))) k
+  - zsum (map (fun kappa => Cn N kappa *
+                zsum (map (fun i => brute (S kappa) i * Cn (length (all_edges (S N - S kappa))) (k - i))
+                          (seq 0 (S k)))) (seq 0 N)).
+Proof.
+  pose proof (count_identity_Z (S N) k ltac:(lia)) as HC.
+  replace (S N - 1)%nat with N in HC by lia.
+  rewrite (seq_S N 0), map_app, zsum_app in HC. cbn [Nat.add map] in HC.
+  change (zsum [?x]) with (x + 0) in HC.
+  assert (Hlast : zsum (map (fun i => brute (S N) i * Cn (length (all_edges (S N - S N))) (k - i)) (seq 0 (S k)))
+                  = brute (S N) k).
+  { rewrite Nat.sub_diag. change (length (all_edges 0)) with 0%nat.
+    rewrite (seq_S k 0), map_app, zsum_app. cbn [Nat.add map]. change (zsum [?x]) with (x + 0).
+    rewrite Nat.sub_diag. change (Cn 0 0) with 1.
+    rewrite zsum_zero; [ring|]. intros i Hi. apply in_seq in Hi.
+    replace (k - i)%nat with (S (k - i - 1)) by lia. cbn [Cn]. ring. }
+  rewrite Hlast, Cn_diag in HC. lia.
+Qed.
+
+Lemma seq_from d : forall len, seq d len = map (fun i => (d + i)%nat) (seq 0 len).
+Proof.
+  intros len. revert d. induction len as [|len IH]; intros d; [reflexivity|].
+  cbn [seq map]. rewrite Nat.add_0_r. f_equal. rewrite <- (seq_shift len 0), map_map, (IH (S d)).
+  apply map_ext. intros i. lia.
+Qed.
+
+Lemma zrange_split a b c : a <= b <= c -> zrange a c = zrange a b ++ zrange b c.
+Proof.
+  intros H. unfold zrange.
+  replace (Z.to_nat (c - a)) with (Z.to_nat (b - a) + Z.to_nat (c - b))%nat by lia.
+  rewrite seq_app, map_app. f_equal. cbn [Nat.add]. rewrite seq_from, map_map.
+  apply map_ext. intros i. lia.
+Qed.
+
+Lemma zsum_rev_seq (f : nat -> Z) n :
+  zsum (map f (seq 0 (S n))) = zsum (map (fun m => f (n - m)%nat) (seq 0 (S n))).
+Proof.
+  induction n as [|n IH]; [reflexivity|].
+  rewrite (seq_S (S n) 0) at 1. rewrite map_app, zsum_app, IH. cbn [Nat.add map].
+  change (seq 0 (S (S n))) with (0%nat :: seq 1 (S n)). rewrite <- seq_shift. cbn [map]. rewrite map_map.
+  change (zsum (?a :: ?r)) with (a + zsum r). change (zsum []) with 0.
+  rewrite Nat.sub_0_r. cbn [Nat.sub]. ring.
+Qed.
+
+(* the code's inner sum over p (with its trimmed range) = the Cauchy-product form of the counting identity *)
+Lemma inner_sum_match (n m : nat) (k : Z) (prev : Z -> Z) :
+  (S m < n)%nat -> Z.of_nat n - 1 < k ->
+  (forall j, 0 <= j <= tri (Z.of_nat (S m)) -> prev j = brute (S m) (Z.to_nat j)) ->
+  let nz := Z.of_nat n in let mz := Z.of_nat m in
+  let lb := Z.max 0 (k - (mz + 1) * mz / 2) in
+  let np := (nz - 1 - mz) * (nz - 2 - mz) / 2 in
+  zsum (map (fun p => binomial np p * prev (k - p)) (zrange lb (k - mz + 1))) =
+  zsum (map (fun i => brute (S m) i * Cn (length (all_edges (n - S m))) (Z.to_nat k - i)) (seq 0 (S (Z.to_nat k)))).
+Proof.
+  intros Hm Hk Hprev. cbv zeta.
+  set (Tm := length (all_edges (S m))). set (Np := length (all_edges (n - S m))).
+  assert (HTm : (Z.of_nat m + 1) * Z.of_nat m / 2 = Z.of_nat Tm).
+  { unfold Tm. rewrite all_edges_length. unfold tri. f_equal. rewrite Nat2Z.inj_succ. unfold Z.succ. ring. }
+  assert (HTm' : tri (Z.of_nat (S m)) = Z.of_nat Tm) by (unfold Tm; rewrite all_edges_length; reflexivity).
+  assert (HNp : (Z.of_nat n - 1 - Z.of_nat m) * (Z.of_nat n - 2 - Z.of_nat m) / 2 = Z.of_nat Np).
+  { unfold Np. rewrite all_edges_length. unfold tri. f_equal.
+    replace (Z.of_nat (n - S m)) with (Z.of_nat n - 1 - Z.of_nat m) by lia. ring. }
+  assert (HmT : (m <= Tm)%nat).
+  { unfold Tm. pose proof (all_edges_len2 (S m)). nia. }
+  rewrite HTm, HNp.
+  set (lb := Z.max 0 (k - Z.of_nat Tm)).
+  set (G := fun p : Z => Cn Np (Z.to_nat p) * brute (S m) (Z.to_nat (k - p))).
+  (* inside the code's range the summand is G *)
+  rewrite (zsum_ext _ G).
+  2:{ intros p Hp. apply In_zrange in Hp. unfold G.
+      rewrite binomial_Cn by lia. rewrite Nat2Z.id. rewrite Hprev; [reflexivity|]. rewrite HTm'. lia. }
+  (* extend the range to 0 .. k: the extra summands vanish *)
+  assert (Hext : zsum (map G (zrange 0 (k + 1))) = zsum (map G (zrange lb (k - Z.of_nat m + 1)))).
+  { rewrite (zrange_split 0 lb (k + 1)) by lia.
+    rewrite (zrange_split lb (k - Z.of_nat m + 1) (k + 1)) by lia.
+    rewrite !map_app, !zsum_app.
+    rewrite (zsum_zero G (zrange 0 lb)), (zsum_zero G (zrange (k - Z.of_nat m + 1) (k + 1))); [ring| |].
+    - intros p Hp. apply In_zrange in Hp. unfold G. rewrite (brute_below_tree (S m)) by lia. ring.
+    - intros p Hp. apply In_zrange in Hp. unfold G. rewrite (brute_above (S m)) by (fold Tm; lia). ring. }
+  rewrite <- Hext.
+  replace (k + 1) with (0 + Z.of_nat (S (Z.to_nat k))) by lia. rewrite zrange_seq, map_map.
+  rewrite zsum_rev_seq. apply zsum_ext. intros i Hi. apply in_seq in Hi. unfold G.
+  replace (Z.to_nat (0 + Z.of_nat (Z.to_nat k - i))) with (Z.to_nat k - i)%nat by lia.
+  replace (Z.to_nat (k - (0 + Z.of_nat (Z.to_nat k - i)))) with i by lia. ring.
+Qed.
+
+(* ================================================================== the reduction *)
+Definition Cayley : Prop := forall n, (2 <= n)%nat -> brute n (n - 1) = Z.of_nat n ^ (Z.of_nat n - 2).
+
+Theorem Q_count_from_Cayley : Cayley ->
+  forall n, (1 <= n)%nat -> forall k, 0 <= k <= tri (Z.of_nat n) -> Qcode n k = brute n (Z.to_nat k).
+Proof.
+  intros HCay. induction n as [n IHn] using lt_wf_ind. intros Hn k Hk.
+  rewrite Qcode_unfold. unfold Qstep. cbv zeta.
+  destruct (Z.ltb_spec k (Z.of_nat n - 1)) as [Hlow|Hlow]; cbn [orb].
+  { symmetry. apply brute_below_tree. lia. }
+  destruct (Z.ltb_spec (tri (Z.of_nat n)) k) as [Hhigh|Hhigh]; [lia|].
+  destruct (Z.eqb_spec k (Z.of_nat n - 1)) as [Heq|Hneq].
+  { destruct (Nat.leb_spec n 1) as [H1|H1].
+    - assert (n = 1%nat) by lia. subst n. replace (Z.to_nat k) with 0%nat by lia. reflexivity.
+    - replace (Z.to_nat k) with (n - 1)%nat by lia. symmetry. apply HCay. lia. }
+  (* the general branch *)
+  destruct n as [|N]; [lia|].
+  rewrite (brute_recurrence N (Z.to_nat k)).
+  rewrite binomial_Cn by (pose proof (tri_nonneg (S N)); lia).
+  replace (Z.to_nat (tri (Z.of_nat (S N)))) with (length (all_edges (S N)))
+    by (rewrite <- all_edges_length; rewrite Nat2Z.id; reflexivity).
+  f_equal. replace (S N - 1)%nat with N by lia. apply zsum_ext. intros m Hm. apply in_seq in Hm.
+  rewrite binomial_Cn by lia. replace (Z.to_nat (Z.of_nat (S N) - 1)) with N by lia. rewrite Nat2Z.id. f_equal.
+  apply (inner_sum_match (S N) m k (fun j => Qcode (S m) j)); [lia | lia|].
+  intros j Hj. apply IHn; [lia | lia | exact Hj].
+Qed.
+
+(* with the table = recursion theorem: the memoised Q as well *)
+Theorem Qv_count_from_Cayley : Cayley ->
+  forall n k, (1 <= n)%nat -> 0 <= k <= tri (Z.of_nat n) -> Qv n k = brute n (Z.to_nat k).
+Proof. intros H n k Hn Hk. rewrite Qv_is_code by lia. apply Q_count_from_Cayley; assumption. Qed.
+
+(* Cayley's formula holds where the table has been compared with the count (so the hypothesis is consistent
+   with everything checked): n <= 12 *)
+Theorem Cayley_upto_12 : forall n, (2 <= n <= 12)%nat -> brute n (n - 1) = Z.of_nat n ^ (Z.of_nat n - 2).
+Proof.
+  intros n Hn. rewrite <- (Nat2Z.id (n - 1)).
+  rewrite <- (Q_count_upto_12 n (Z.of_nat (n - 1))).
+  - rewrite Qv_is_code by lia. rewrite Qcode_unfold. unfold Qstep. cbv zeta.
+    replace (Z.of_nat (n - 1)) with (Z.of_nat n - 1) by lia.
+    destruct (Z.ltb_spec (Z.of_nat n - 1) (Z.of_nat n - 1)); [lia|]. cbn [orb].
+    destruct (Z.ltb_spec (tri (Z.of_nat n)) (Z.of_nat n - 1)) as [Hh|Hh].
+    + exfalso. pose proof (tri_double n). nia.
+    + rewrite Z.eqb_refl. destruct (Nat.leb_spec n 1); [lia | reflexivity].
+  - lia.
+  - split; [lia|]. pose proof (tri_double n). nia.
+Qed.
